@@ -1597,6 +1597,9 @@ func presizedSerial(c *core.Ctx, fn *ssa.Function, entryMeth string) (applicable
 	if ms == nil {
 		return false, ""
 	}
+	if k, isK := constInt(ms.Len); isK && k == 0 {
+		return false, "" // make([]byte, 0, total): the total is a capacity hint of the append form
+	}
 	rangeOf := func(l *prover.Loop) *ssa.Range {
 		// the Range instruction feeding the Next of this loop's header
 		for _, ins := range l.Header.Instrs {
